@@ -146,6 +146,34 @@ add('C18', 'TLA+ spec Surgery/Geometry/Tags (relational clauses in exact integer
     'and their compositions interleaved with refinement. One known finding (extrusion ignores the line operand cells).',
     'DESIGN.md section 5 C18')
 
+add('C14', 'TLA+ spec Locate/GeomLocate (FindImpl transcription of the element finders: k nearest centroids, inside test, '
+    'fallback, raise; exact closed point-in-cell predicates; probe-matrix structure): TLC model checking FindImpl => FindOK '
+    'over lattice and half-lattice points of the universe meshes + replay of the TLC-enumerated (mesh, point) pairs on '
+    'the real finders + TLC trace validation of finders, probes, interpolator and point_source (laws in fixed point)',
+    'TLC decides FoundCellContainsPoint, PointsOfTheDomainAreFound, BoundaryPointsAreFound, RaisesOutside (margin 2^-10), '
+    'ProbeRows exactly, and P1Exact (rational barycentric oracle), LocalExpansion, AgreesWithInterpolate, SamePointSameValue, '
+    'PointSourceOK with tolerance 2^-36 (ElementGlobal 2^-26) on all first-order mesh classes incl. graded, sheared and '
+    'non-convex domains. Known finding: multi-component segment meshes.',
+    'DESIGN.md section 5 C14')
+add('C03', 'TLA+ spec Conformity (direction / sign design predicates over DOF numbering, ContinuityClass table per element '
+    'family): TLC model checking of the design for every admissible local order on small meshes (named deviation QuadP; '
+    'pre-repair QuadN1 table refuted) + TLC trace validation of one-sided traces of EVERY global DOF on both sides of '
+    'every interior facet (law JumpZero in fixed point)',
+    'TLC decides SharedEntitySharedDof, DirConsistent, SignsOpposite/SignsEqual on the model, and on the real code '
+    'SidesAreTheTwoNeighbours and JumpZero per continuity class (value, normal, tangential component, defining '
+    'functionals of the non-conforming and C1 families) for all renumberings / local orders of universe and random '
+    'meshes, curved meshes for H1. Linear in the coefficients, so unit vectors cover any coefficient vector. Known '
+    'finding: ElementQuadP(p>=3) under cyclic shifts.',
+    'DESIGN.md section 5 C03')
+add('C06', 'TLA+ spec Galerkin (SolutionIsInterpolant: exact polynomial values at integer DOF locations computed by TLC; '
+    'ProjectionIsIdentity): TLC trace validation of end-to-end solves (assemble, get_dofs, boundary projection, condense, '
+    'solve) and projections recorded from the real code, in fixed point',
+    'TLC compares every recorded solution with the exact interpolant of the scenario polynomial (tolerance 2^-26 relative; '
+    'observed 3e-14): Poisson, reaction-diffusion, elasticity with Dirichlet/Neumann splits along facet sets; P1-P4, Q1/Q2, '
+    'Hex1/Hex2, TetP1/P2, prisms; universe and random integer Delaunay meshes; projections onto mesh / sub-domain / '
+    'boundary incl. curved meshes. Galerkin exactness itself is a theorem that is assumed, not established by TLC.',
+    'DESIGN.md section 5 C06', TRUST + ' Mode L on a theorem (uniqueness of the discrete solution).')
+
 NOT_YET = "check not built yet (implementation in progress; see DESIGN.md section 8 for the plan)"
 NA = {'C09': "no state, transitions or discrete core: ~70 closed-form derivative formulas; TLA+/TLC cannot express "
              "real differentiation except as a numeric harness with TLC as calculator (DESIGN.md section 6)"}
